@@ -7,6 +7,10 @@
    generated code (or the outcome of the pipeline for the whole program):
 
      KOutcome acc          thriftgo accepted the program and the generated Go compiled
+     KProg q acc           the same for the program q carried by the case (small programs
+                           that are refused are bundled into one shard)
+     KCompiled ok          under some option set of the property the generated packages of the
+                           program compiled (ok) / did not compile
      KConst fi ci v        the Go constant / variable generated for the ci-th constant of
                            the fi-th file of P holds v
      KNew fi si vn vi      NewX() = vn and InitDefault() on &X{} gives vi, X = the si-th
@@ -27,6 +31,9 @@
                                                                          (property oracle)
      7   an optional field holding a value different from its default reports itself
          as not set                                                      (property oracle)
+     8   every initializer of the program has a value (model) but the generated Go does
+         not compile under an option set the property names: the constants are not
+         available                                                       (property oracle)
      10  a value of the wrong kind for a scalar or struct type was accepted
                                                                          (property oracle)
    The oracles evaluate the IDL under [idl_rules]; struct literals constrain only the
@@ -38,6 +45,8 @@ Local Open Scope Z_scope.
 
 Inductive case :=
 | KOutcome (accepted : bool)
+| KProg (q : program) (accepted : bool)
+| KCompiled (ok : bool)
 | KConst (fi ci : Z) (v : cval)
 | KNew (fi si : Z) (vnew vinit : cval)
 | KInit (fi si : Z) (x y : cval)
@@ -193,13 +202,17 @@ Definition check_get (p : program) (f : file) (s : struct_like) (x : cval)
        end)
     (sl_fields s).
 
+Definition check_outcome (p : program) (acc : bool) : list N :=
+  (if existsb is_fuel (prog_results go_rules p) then [9%N]
+   else if Bool.eqb (prog_ok go_rules p) acc then [] else [1%N]) ++
+  (if acc && existsb (kind_errors p) (prog_files p) then [10%N] else []).
+
 Definition check_case (p : program) (c : case) : list N :=
   let n := prog_fuel p in
   match c with
-  | KOutcome acc =>
-    (if existsb is_fuel (prog_results go_rules p) then [9%N]
-     else if Bool.eqb (prog_ok go_rules p) acc then [] else [1%N]) ++
-    (if acc && existsb (kind_errors p) (prog_files p) then [10%N] else [])
+  | KOutcome acc => check_outcome p acc
+  | KProg q acc => check_outcome q acc
+  | KCompiled ok => if ok then [] else if prog_ok go_rules p then [8%N] else []
   | KConst fi ci v =>
     match file_at p fi with
     | Some f =>
